@@ -103,34 +103,29 @@ def check(case: dict):
         require(got == ref, "C04:generate:not-reproducible",
                 f"second generation differs from the first in {sum(1 for a, b in zip(got, ref) if a != b)} of {len(ref)} mazes after history {[o['op'] for o in case['history']]}; spec={spec}")
     else:
-        # expected = filter model applied in order to the raw generated list
+        # expected = the recorded filters applied in order to the raw generated list (every step checked against the C08 model);
+        # configurations whose filter list leaves a filter outside its domain on this data are discarded
+        import inspect
+
+        from maze_dataset.dataset.maze_dataset import MazeDatasetFilters
+
         items = [{"g": {"r": spec["grid_n"], "c": spec["grid_n"], "cl": cl}, "sol": [list(q) for q in sol]} for cl, sol in ref]
-        outs = [items]
-        skip = False
+        ops = []
         for f in spec.get("filters", []):
-            import inspect
-
-            from maze_dataset.dataset.maze_dataset import MazeDatasetFilters
-
             names = [p for p in inspect.signature(getattr(MazeDatasetFilters, f["name"])).parameters][1:]
             op = {"f": f["name"], "params": {**dict(zip(names, f.get("args", []))), **f.get("kwargs", {})}}
-            nxt = []
-            for cur in outs:
-                if f["name"] in ("cut_percentile_shortest", "collect_generation_meta") and len(cur) == 0:
-                    skip = True
-                    continue
-                nxt.extend(C08.model_apply(cur, op))
-            outs = nxt
+            if f.get("args"):
+                op["positional"] = True
+            ops.append(op)
         names_ = [f["name"] for f in spec.get("filters", [])]
-        if "collect_generation_meta" in names_ and "strip_generation_meta" in names_[: names_.index("collect_generation_meta")]:
-            skip = True
-        if skip or not outs:
+        applied, _, _, hand, final_items = C08.run_sequence(ref_ds, items, ops, sig="C04:by-hand")
+        if applied != len(ops):
             raise Discard()
         obs = call("C04:from_config", MazeDataset.from_config, cfg2, load_local=False, save_local=False, do_download=False)
         got = _structs(obs)
-        want = [[C08._item_struct(it) for it in o] for o in outs]
-        require(got in want, "C04:from_config:not-generate-plus-filters",
-                f"from_config returned {len(got)} mazes; generate + filters {names_} gives {[len(w) for w in want]}; history {[o['op'] for o in case['history']]}; spec={spec}")
+        want = [C08._item_struct(it) for it in final_items]
+        require(got == want, "C04:from_config:not-generate-plus-filters",
+                f"from_config returned {len(got)} mazes; generate + filters {names_} gives {len(want)}; history {[o['op'] for o in case['history']]}; spec={spec}")
         labels.append("filters" if names_ else "no-filters")
     after = json.dumps(cfg2.serialize(), default=str, sort_keys=True)
     require(after == before, f"C04:{route}:config-modified", "the configuration object passed in changed")
